@@ -6,7 +6,7 @@ CFG = {'level': 'exploration',
               'classes), SplitPathVersion, CheckPathMajor/PathMajorPrefix, Check and MatchPrefixPatterns transcribed clause by clause (ref/refpath, '
               'path.Match from the standard library for globs) and compared with the real functions on clause-targeted generated inputs',
  'level_text': 'CheckPath, CheckImportPath, CheckFilePath, SplitPathVersion, PathMajorPrefix, Check, CheckPathMajor, MatchPathMajor and '
-               'MatchPrefixPatterns are run on ~2.7e6 (quick) / ~2.9e7 (thorough) generated paths, path/version pairs and glob lists: one generator per '
+               'MatchPrefixPatterns are run on ~2.7e6 (quick) / ~1.5e8 (thorough) generated paths, path/version pairs and glob lists: one generator per '
                'documented clause (each clause observed holding and broken alone, for each path kind), every non-alphanumeric ASCII byte and a set of '
                'non-ASCII characters at four positions, every Windows device name and near miss x every casing x suffix x position, tables of /vN and '
                'gopkg.in suffixes, single-edit mutations of valid paths and token soup; each result is compared with the clause model, and the '
